@@ -265,7 +265,7 @@ class Resolver:
             # a dead end below one of the candidate nodes is a non-match of that candidate, never an error:
             # the remainder is evaluated without raising, so that a dead end in one branch below a candidate
             # does not discard the matches found in its other branches
-            resolver = self if self.relax else Resolver(self.pathattr, self.ignorecase, relax=True)
+            resolver = self.__relaxed()
             matches = []
             for subnode in PreOrderIter(node):
                 for match in resolver.__glob(subnode, remainder):
@@ -282,18 +282,22 @@ class Resolver:
 
     def __find(self, node, pat, remainder):
         matches = []
+        # below a wildcard a dead end is a non-match of that child, never an error (and must not
+        # discard what was found in the child's other branches): the remainder is evaluated without raising
+        resolver = self.__relaxed() if Resolver.is_wildcard(pat) else self
         for child in node.children:
             name = _getattr(child, self.pathattr)
-            try:
-                if self.__match(name, pat):
-                    if remainder:
-                        matches += self.__glob(child, remainder)
-                    else:
-                        matches.append(child)
-            except ResolverError as exc:
-                if not Resolver.is_wildcard(pat):
-                    raise exc
+            if self.__match(name, pat):
+                if remainder:
+                    matches += resolver.__glob(child, remainder)
+                else:
+                    matches.append(child)
         return matches
+
+    def __relaxed(self):
+        if self.relax:
+            return self
+        return Resolver(self.pathattr, self.ignorecase, relax=True)
 
     @staticmethod
     def is_wildcard(path):
